@@ -39,8 +39,13 @@ struct Program {
 };
 
 // swarm options of one run (all drawn from the run seed, stored in replay files)
-enum Strategy { S_UNIFORM = 0, S_STICKY = 1, S_PCT = 2, S_BURST = 3, S_NUM };
+// S_STALL: sticky scheduling plus stalls injected at a per-run pseudo-random subset of code sites (calling
+// contexts of atomic operations): a thread reaching a selected site is held until other threads completed a
+// few operations (or exited) - the "slow or stalled node" fault placed by code location, not by step count
+enum Strategy { S_UNIFORM = 0, S_STICKY = 1, S_PCT = 2, S_BURST = 3, S_STALL = 4, S_NUM };
 struct Options {
+  int reuse_pct = 0;     // probability (percent) that an allocation reuses the most recently freed block of the same size
+                         // (real allocators do: the ABA fault; 0 keeps every freed block quarantined for the whole run)
   int strategy = S_UNIFORM;
   int sticky_pct = 80;   // S_STICKY: probability (percent) to keep running the current thread
   int pct_depth = 2;     // S_PCT: number of priority change points
